@@ -32,7 +32,7 @@ ASSUMPTIONS = ["pin order inside a wire is not compared (Verilog has no such ord
                "cells of hdi_primitives: only port names/widths/base compared, direction UNDEFINED == INOUT (an inferred black "
                "box necessarily comes back as a declared `celldefine module)",
                "top instance name and netlist name are not compared (not in the statement)"]
-REQUIRED = {"round_trips": 150, "bits_compared": 5000}
+REQUIRED = {"round_trips": 150, "bits_compared": 5000, "aliased_header_ports": 40}
 FEATURES = ["shuffle", "consts", "undeclared", "positional", "escaped", "params", "attrs", "assigns", "comments", "grouped"]
 
 
